@@ -491,6 +491,8 @@ def enumerate_faults(name, quick, rng):
                     add(idx, what, ['set_u32', o, 0])
             for t in TYPES:
                 add(idx, what, ['type', t])
+            for reason in (1, 2, 7, 11, 12, 0xffffffff):
+                add(idx, what, ['disconnect', reason])
             for k in (1, 3, 40):
                 add(idx, what, ['debug', k])
             if dense and (not quick or idx <= 1 or what in ('gex_group', 'gex_reply')):
@@ -544,6 +546,13 @@ def enumerate_faults(name, quick, rng):
             if idx == 0 and ARCH[name].get('client'):
                 continue
             cases.append({'arch': name, 'faults': [['connect', idx, f]]})
+    # a server that stops serving this client after its first k connections, in every way and for good
+    for k in (1, 2, 3, 5):
+        for what, f in (('connect', 'close'), ('connect', 'refuse'), ('connect', 'stall'), ('banner', 'close'), ('kexinit', 'close'), ('kexinit', 'stall'), ('kexinit', ['disconnect', 12]), ('kexinit', ['disconnect', 2]),
+                        ('kexdh_reply', 'close'), ('kexdh_reply', ['disconnect', 3]), ('gex_group', ['disconnect', 12]), ('gex_group', 'stall'), ('kexinit', ['type', 2])):
+            if what == 'connect' and ARCH[name].get('client'):
+                continue
+            cases.append({'arch': name, 'faults': [[what, '%d+' % k, f]]})
     # extra pre-banner lines and segmentation
     for k in (1, 5, 50):
         cases.append({'arch': name, 'faults': [['banner', '*', ['raw', 'motd line\r\n' * k + 'SSH-2.0-OpenSSH_8.0\r\n', None]]] if ARCH[name]['spec'].get('proto', 2) == 2 else []})
